@@ -79,6 +79,9 @@ type World struct {
 	trace  []Event
 	seq    int
 	Record bool // record events (default true)
+	// Lite: keep no trace, ledger or logs - only sequence numbers. Forced in race-detector builds, where every piece
+	// of simulator state that tasks share would otherwise have to be hidden from the detector.
+	Lite bool
 
 	Tape *Tape
 
@@ -103,13 +106,26 @@ type World struct {
 	OpensTotal, MmapsTotal  int
 
 	// logs and process stop
-	Logs    []string
-	Stopped []string // messages of process-stopped events
+	Logs       []string
+	stoppedArr [8]string // messages of process-stopped events
+	nStopped   int
 
-	Probes   map[string]int
-	counters map[string]uint64
+	Probes      map[string]int
+	liteCounter uint64
+	counters    map[string]uint64
 
 	sched *scheduler
+}
+
+// lock / unlock take the simulator's own mutex invisibly for the race detector (see race_on.go).
+func (w *World) lock() {
+	raceDisable()
+	w.mu.Lock()
+}
+
+func (w *World) unlock() {
+	w.mu.Unlock()
+	raceEnable()
 }
 
 var cur atomic.Pointer[World]
@@ -126,6 +142,7 @@ func NewWorld(root string, tape *Tape) *World {
 	w := &World{
 		Root:        filepath.Clean(abs),
 		Record:      true,
+		Lite:        RaceBuild,
 		Tape:        tape,
 		FaultsFired: map[string]int{},
 		handles:     map[uint64]string{},
@@ -164,9 +181,16 @@ func (w *World) Rel(p string) (string, bool) {
 }
 
 // Emit appends an event to the trace and returns its sequence number.
+//
+//go:norace
 func (w *World) Emit(e Event) int {
-	w.mu.Lock()
-	defer w.mu.Unlock()
+	if w.Lite {
+		// only released tasks emit (every recording call site yields first), so this is serial
+		w.seq++
+		return w.seq
+	}
+	w.lock()
+	defer w.unlock()
 	w.seq++
 	e.Seq = w.seq
 	if e.Task == 0 {
@@ -179,30 +203,41 @@ func (w *World) Emit(e Event) int {
 }
 
 // Seq returns the sequence number of the last event.
+//
+//go:norace
 func (w *World) Seq() int {
-	w.mu.Lock()
-	defer w.mu.Unlock()
+	if w.Lite {
+		return w.seq
+	}
+	w.lock()
+	defer w.unlock()
 	return w.seq
 }
 
 // Trace returns the events recorded so far (shared slice; do not modify).
 func (w *World) Trace() []Event {
-	w.mu.Lock()
-	defer w.mu.Unlock()
+	w.lock()
+	defer w.unlock()
 	return w.trace[:len(w.trace):len(w.trace)]
 }
 
 // ResetTrace drops recorded events (sequence numbers continue).
 func (w *World) ResetTrace() {
-	w.mu.Lock()
-	defer w.mu.Unlock()
+	w.lock()
+	defer w.unlock()
 	w.trace = nil
 }
 
 // NextCounter returns 1, 2, 3, ... per name.
+//
+//go:norace
 func (w *World) NextCounter(name string) uint64 {
-	w.mu.Lock()
-	defer w.mu.Unlock()
+	if w.Lite {
+		w.liteCounter++
+		return w.liteCounter
+	}
+	w.lock()
+	defer w.unlock()
 	if w.counters == nil {
 		w.counters = map[string]uint64{}
 	}
@@ -212,9 +247,12 @@ func (w *World) NextCounter(name string) uint64 {
 
 // Probe counts that a named situation was reached.
 func (w *World) Probe(name string) {
-	w.mu.Lock()
+	if w.Lite {
+		return
+	}
+	w.lock()
 	w.Probes[name]++
-	w.mu.Unlock()
+	w.unlock()
 }
 
 // CheckFault is called by the simulated disk before an eligible operation.
@@ -223,8 +261,8 @@ func (w *World) CheckFault(kind, rel string) (FaultSpec, bool) {
 	if w.FaultFilter == nil {
 		return FaultSpec{}, false
 	}
-	w.mu.Lock()
-	defer w.mu.Unlock()
+	w.lock()
+	defer w.unlock()
 	id, name := w.currentTaskLocked()
 	if !w.FaultFilter(OpPoint{Kind: kind, Rel: rel, Task: id, Name: name}) {
 		return FaultSpec{}, false
@@ -242,8 +280,11 @@ func (w *World) CheckFault(kind, rel string) (FaultSpec, bool) {
 // ---- resource ledger ----
 
 func (w *World) HandleOpened(rel string, closer func()) uint64 {
-	w.mu.Lock()
-	defer w.mu.Unlock()
+	if w.Lite {
+		return 0
+	}
+	w.lock()
+	defer w.unlock()
 	w.nextH++
 	w.handles[w.nextH] = rel
 	w.closers[w.nextH] = closer
@@ -255,21 +296,24 @@ func (w *World) HandleOpened(rel string, closer func()) uint64 {
 }
 
 func (w *World) HandleClosed(id uint64) {
-	w.mu.Lock()
+	if w.Lite {
+		return
+	}
+	w.lock()
 	delete(w.handles, id)
 	delete(w.closers, id)
-	w.mu.Unlock()
+	w.unlock()
 }
 
 // ReleaseAll force-closes every descriptor and mapping the run left open (the simulated process is dead).
 // Nothing of the run may be used afterwards.
 func (w *World) ReleaseAll() {
-	w.mu.Lock()
+	w.lock()
 	cl := w.closers
 	w.closers = map[uint64]func(){}
 	w.handles = map[uint64]string{}
 	w.mappings = map[uint64]string{}
-	w.mu.Unlock()
+	w.unlock()
 	for _, f := range cl {
 		if f != nil {
 			f()
@@ -278,8 +322,11 @@ func (w *World) ReleaseAll() {
 }
 
 func (w *World) MappingOpened(rel string, closer func()) uint64 {
-	w.mu.Lock()
-	defer w.mu.Unlock()
+	if w.Lite {
+		return 0
+	}
+	w.lock()
+	defer w.unlock()
 	w.nextH++
 	w.mappings[w.nextH] = rel
 	w.closers[w.nextH] = closer
@@ -291,16 +338,19 @@ func (w *World) MappingOpened(rel string, closer func()) uint64 {
 }
 
 func (w *World) MappingClosed(id uint64) {
-	w.mu.Lock()
+	if w.Lite {
+		return
+	}
+	w.lock()
 	delete(w.mappings, id)
 	delete(w.closers, id)
-	w.mu.Unlock()
+	w.unlock()
 }
 
 // OpenHandles returns the relative paths of all currently open tracked handles, sorted.
 func (w *World) OpenHandles() []string {
-	w.mu.Lock()
-	defer w.mu.Unlock()
+	w.lock()
+	defer w.unlock()
 	var out []string
 	for _, p := range w.handles {
 		out = append(out, p)
@@ -311,8 +361,8 @@ func (w *World) OpenHandles() []string {
 
 // OpenMappings returns the relative paths of all live tracked mappings, sorted.
 func (w *World) OpenMappings() []string {
-	w.mu.Lock()
-	defer w.mu.Unlock()
+	w.lock()
+	defer w.unlock()
 	var out []string
 	for _, p := range w.mappings {
 		out = append(out, p)
@@ -324,26 +374,42 @@ func (w *World) OpenMappings() []string {
 // ---- logs / stop ----
 
 func (w *World) AddLog(s string) {
-	w.mu.Lock()
+	if w.Lite {
+		return
+	}
+	w.lock()
 	if len(w.Logs) < 4096 {
 		w.Logs = append(w.Logs, s)
 	}
-	w.mu.Unlock()
+	w.unlock()
 }
 
 // ProcessStopped records that the code under test asked for the process to die.
+//
+//go:norace
 func (w *World) ProcessStopped(msg string) {
 	w.Emit(Event{Kind: EvStop, Note: msg})
-	w.mu.Lock()
-	w.Stopped = append(w.Stopped, msg)
-	w.mu.Unlock()
+	w.lock()
+	if w.nStopped < len(w.stoppedArr) {
+		w.stoppedArr[w.nStopped] = msg
+		w.nStopped++
+	}
+	w.unlock()
 }
 
+//go:norace
 func (w *World) StoppedMessages() []string {
-	w.mu.Lock()
-	defer w.mu.Unlock()
-	return append([]string(nil), w.Stopped...)
+	w.lock()
+	defer w.unlock()
+	var out []string
+	for i := 0; i < w.nStopped; i++ {
+		out = append(out, w.stoppedArr[i])
+	}
+	return out
 }
+
+//go:norace
+func (w *World) stoppedCount() int { return w.nStopped }
 
 // StopPanic is the sentinel panic value used to unwind a task after log.Panicf / log.Fatalf.
 type StopPanic struct{ Msg string }
